@@ -250,19 +250,27 @@ func (m *interp) nodes(ns []Node, e env, se *slotEnv, depth int) {
 			// v-for (with v-if on the same element as a per-item filter)
 			count := m.loop(n, e, se, depth, n.If)
 			i++
-			if i < len(ns) && isChainMember(&ns[i]) {
-				nx := &ns[i]
-				if nx.ElseIf != "" {
-					m.unspec("v-else-if after an element carrying v-for (open finding C03-vfor-on-if-member)")
-				}
+			// A looped element owns the whole v-else-if / v-else tail that follows it: when
+			// the loop produced nothing the tail is evaluated as a chain (first v-else-if
+			// whose condition holds, else the v-else); otherwise all members are skipped.
+			j := i
+			for j < len(ns) && isChainMember(&ns[j]) {
+				j++
+			}
+			if j > i {
 				if n.Kind != KEl {
-					m.unspec("v-else after a v-for on <template> / an include: 'produced nothing' is not defined for it")
+					m.unspec("v-else-if / v-else after a v-for on <template>, an include or a <slot>: 'produced nothing' is not defined for it")
 				}
 				if count == 0 {
-					m.member(nx, e, se, depth)
+					for k := i; k < j; k++ {
+						mem := &ns[k]
+						if mem.Else || m.cond(e, mem.ElseIf) {
+							m.member(mem, e, se, depth)
+							break
+						}
+					}
 				}
-				i++
-				// further members would be orphans; dropped by the first case
+				i = j
 			}
 		case n.If != "":
 			j := i + 1
